@@ -65,3 +65,16 @@ package gov
 //@   ensures result == nil && ctx.Tx.Type == 5 ==> prop_at(ctrler.proposalLedger, lkey(content(as(ctx.Tx.Payload, ptr(TrxPayloadVoting)).TxHash)), ctx.Exec).StartVotingHeight <= ctx.Height && ctx.Height <= prop_at(ctrler.proposalLedger, lkey(content(as(ctx.Tx.Payload, ptr(TrxPayloadVoting)).TxHash)), ctx.Exec).EndVotingHeight   [C15]
 //@   loop 0: modifies allof(GovParams), mem(uint256.Int)
 //@   loop 0: invariant checkGovParams != nil
+
+// ---- queries (C19, C06)
+//@ func (ctrler *GovCtrler) Query(req)
+//@   objinv ctrler != nil && ctrler.proposalLedger != nil && ctrler.frozenLedger != nil && ctrler.paramsLedger != nil
+//@   assumes !cons_ok
+//@   modifies everything
+//@   preserves allmaps(memItems.gotItems), allmaps(memItems.updatedItems), memItems.*, allelems(memItems.removedKeys), FinalityLedger.*, SimpleLedger.*, MemLedger.*, StakeCtrler.*, GovCtrler.*, AcctCtrler.*, GovParams.*, cons_ok, deadobj
+//@   assert@call(ImmutableLedgerAt,0): $arg0 == req.Height && $target == ctrler.proposalLedger                [C19]
+//@   assert@call(ImmutableLedgerAt,1): $arg0 == req.Height && ($target == ctrler.frozenLedger || $target == ctrler.paramsLedger)   [C19]
+//@   assert@call(ImmutableLedgerAt,2): $arg0 == req.Height && ($target == ctrler.frozenLedger || $target == ctrler.paramsLedger)   [C19]
+//@   assert@call(Read,0): immuheight[$target] == req.Height                                                   [C19]
+//@   assert@call(Read,1): immuheight[$target] == req.Height                                                   [C19]
+//@   assert@call(Read,2): immuheight[$target] == req.Height                                                   [C19]
